@@ -45,6 +45,9 @@ def main():
     if args.target == "selftest-determinism":
         from simkit import selftest
         sys.exit(selftest.determinism(args.rest or PROPS, args.tier, verif_seed))
+    if args.target == "soak":
+        from simkit import selftest
+        sys.exit(selftest.soak(args.rest, args.tier, verif_seed, PROPS))
     if args.target == "mutants":
         from simkit import mutants
         sys.exit(mutants.main(args.rest, args.tier))
